@@ -756,6 +756,9 @@ pub fn resolve_promise(
     let JsValue::Object(promise_obj) = promise.value() else {
         return Err(JsError::type_error("Expected a Promise object"));
     };
+    if !matches!(promise_obj.borrow().exotic, value::ExoticObject::Promise(_)) {
+        return Err(JsError::type_error("Expected a Promise object"));
+    }
 
     interpreter::builtins::promise::resolve_promise_value(
         interp,
@@ -785,6 +788,9 @@ pub fn reject_promise(
     let JsValue::Object(promise_obj) = promise.value() else {
         return Err(JsError::type_error("Expected a Promise object"));
     };
+    if !matches!(promise_obj.borrow().exotic, value::ExoticObject::Promise(_)) {
+        return Err(JsError::type_error("Expected a Promise object"));
+    }
 
     interpreter::builtins::promise::reject_promise_value(
         interp,
